@@ -6,7 +6,7 @@ package keygen
 // ---- start function (C20): keygen (no key material) or refresh (both the share and the public key)
 //@ func StartKeygen$1
 // (C09) the session tag is derived under this protocol's OWN identifier (pairwise distinct across all start functions)
-//@   assert_at[C09] NewSession "helper, err := round.NewSession(info, sessionID, nil)": arg0.ProtocolID == "doerner/keygen" && arg0.FinalRoundNumber == 3
+//@   assert_at[C09] NewSession "helper, err := round.NewSession(info, sessionID, nil)": arg0.ProtocolID == ite(old(secretShare) != nil && old(public) != nil, "doerner/refresh", "doerner/keygen") && arg0.FinalRoundNumber == 3
 //@   nopanic[C20]
 //@   requires group != nil
 //@   ensures[C20] result1 != nil ==> result0 == nil
